@@ -149,30 +149,18 @@ func checkC16(w *World, r *Report) {
 func f1(w *World, r *Report) {
 	cv0 := needFn(r, "F-1", w, fref{"node", "", "commonValidation0"})
 	if cv0 != nil {
-		g, ok := w.guardProtectsSuccess(cv0, func(c string) bool {
-			return c == "(p0.Tx.GasPrice.Cmp(p0.GovHandler.GasPrice()) != 0)" || c == "(p0.GovHandler.GasPrice().Cmp(p0.Tx.GasPrice) != 0)" || c == "!p0.Tx.GasPrice.Eq(p0.GovHandler.GasPrice())"
-		})
-		if g == nil {
-			r.Violate("F-1", "commonValidation0:gas-price-equality", "no guard rejects a gas price different from the governance gas price (both directions)", nil, fnSite(w, cv0))
-		} else {
-			r.Check(ok, "F-1", "commonValidation0:gas-price-equality", "gas price must equal the governance gas price; the guard lies on every success path", "a success return bypasses the gas-price equality check", site(w, g.If))
-		}
-		g, ok = w.guardProtectsSuccess(cv0, func(c string) bool {
-			return c == "("+feeExpr+".Cmp(p0.GovHandler.MinTrxFee()) < 0)" || c == "(p0.GovHandler.MinTrxFee().Cmp("+feeExpr+") > 0)"
-		})
-		if g == nil {
-			r.Violate("F-1", "commonValidation0:min-fee", "no guard rejects gas x price below the governance minimum fee", nil, fnSite(w, cv0))
-		} else {
-			r.Check(ok, "F-1", "commonValidation0:min-fee", "gas x price below the minimum fee is rejected on every success path", "a success return bypasses the minimum-fee check", site(w, g.If))
-		}
+		// under the fact no validation succeeds (however the comparison and the fee are written)
+		ok, why := w.failsUnder(cv0, nil, A("p0.Tx.GasPrice", "!=", "p0.GovHandler.GasPrice()"))
+		r.Check(ok, "F-1", "commonValidation0:gas-price-equality", "a gas price different from the governance gas price (either direction) is rejected on every path ("+why+")", "a gas price different from the governance gas price is accepted: "+why, fnSite(w, cv0))
+		ok, why = w.failsUnder(cv0, nil, A(feeExpr, "<", "p0.GovHandler.MinTrxFee()"))
+		r.Check(ok, "F-1", "commonValidation0:min-fee", "gas x price below the minimum fee is rejected on every path ("+why+")", "gas x price below the governance minimum fee is accepted: "+why, fnSite(w, cv0))
 	}
 	gp := needFn(r, "F-1", w, fref{pkgCT, "GovParams", "GasPrice"})
 	if gp != nil {
 		ok := false
 		for _, b := range gp.Blocks {
 			if ret, isR := lastInstr(b).(*ssa.Return); isR && ret.Block() != gp.Recover {
-				c := w.Canon(retResult(ret, 0))
-				ok = c == "new(uint256.Int).Set(recv.gasPrice)" || c == "recv.gasPrice.Clone()" || c == "recv.gasPrice"
+				ok = w.zValue(retResult(ret, 0)) == "recv.gasPrice"
 			}
 		}
 		r.Check(ok, "F-1", "GovParams.GasPrice", "returns the gasPrice parameter", "GovParams.GasPrice() does not return the gasPrice parameter", fnSite(w, gp))
@@ -182,8 +170,7 @@ func f1(w *World, r *Report) {
 		ok := false
 		for _, b := range mf.Blocks {
 			if ret, isR := lastInstr(b).(*ssa.Return); isR && ret.Block() != mf.Recover {
-				c := w.Canon(retResult(ret, 0))
-				ok = c == "new(uint256.Int).Mul(uint256.NewInt(recv.minTrxGas), recv.gasPrice)" || c == "new(uint256.Int).Mul(recv.gasPrice, uint256.NewInt(recv.minTrxGas))"
+				ok = w.zValue(retResult(ret, 0)) == "zmul(recv.gasPrice|u(recv.minTrxGas))"
 			}
 		}
 		r.Check(ok, "F-1", "GovParams.MinTrxFee", "minimum fee = minTrxGas x gasPrice", "MinTrxFee is not minTrxGas x gasPrice", fnSite(w, mf))
@@ -274,34 +261,94 @@ func f3(w *World, r *Report) {
 func f4(w *World, r *Report) {
 	dt := needFn(r, "F-4", w, fref{"node", "RigoApp", "deliverTxSync"})
 	if dt != nil {
-		afs := w.callsTo(dt, fref{pkgCT, "BlockContext", "AddFee"})
-		exs := w.callsTo(dt, fref{"node", "TrxExecutor", "ExecuteSync"})
+		// deliverTxSync is evaluated on its paths (helpers expanded) under the facts
+		// "ExecuteSync failed" / "ExecuteSync succeeded"
 		ntc := w.callsTo(dt, fref{pkgCT, "", "NewTrxContext"})
-		if len(afs) != 1 || len(exs) != 1 || len(ntc) != 1 {
-			r.Violate("F-4", "deliverTxSync:AddFee", fmt.Sprintf("expected exactly one AddFee, ExecuteSync and NewTrxContext call (found %d/%d/%d)", len(afs), len(exs), len(ntc)), nil, fnSite(w, dt))
+		var ctx ssa.Value
+		if len(ntc) == 1 {
+			ctx = extractOf(callValue(ntc[0]), 0)
+		}
+		if ctx == nil {
+			r.Violate("F-4", "deliverTxSync:AddFee", "deliverTxSync does not build exactly one transaction context", nil, fnSite(w, dt))
 		} else {
-			af := afs[0]
-			ctx := extractOf(callValue(ntc[0]), 0)
-			_, exArgs := callRecvArgs(exs[0].Common())
-			succ := w.nilTestAt(callValue(exs[0]), af.Block()) == -1 && ctx != nil && len(exArgs) == 1 && sameValue(exArgs[0], ctx)
-			r.Check(succ, "F-4", "deliverTxSync:AddFee:only-on-success", "the fee is added only where ExecuteSync of this context returned nil", "AddFee is reachable for a failed transaction (a fee charged to nobody would be credited to the proposer)", site(w, af))
-			rcv, a := callRecvArgs(af.Common())
-			want := ""
-			if ctx != nil {
-				want = "types.GasToFee(" + w.Canon(ctx) + ".GasUsed, recv.govCtrler.GovParams.GasPrice())"
+			cs := w.Canon(ctx)
+			want := "types.GasToFee(" + cs + ".GasUsed, recv.govCtrler.GovParams.GasPrice())"
+			var addSite string
+			ev := func(in ssa.Instruction) string {
+				c, isC := in.(ssa.CallInstruction)
+				if !isC {
+					return ""
+				}
+				switch callName(c.Common()) {
+				case "ExecuteSync":
+					_, a := callRecvArgs(c.Common())
+					if len(a) == 1 {
+						return "EXEC\x01" + w.Canon(a[0])
+					}
+				case "AddFee":
+					rcv, a := callRecvArgs(c.Common())
+					if rn := recvNamed(c.Common()); rn != nil && rn.Obj().Name() == "BlockContext" && len(a) == 1 {
+						addSite = site(w, c)
+						return "ADD\x01" + w.Canon(rcv) + "\x01" + w.Canon(a[0])
+					}
+				}
+				return ""
 			}
-			r.Check(len(a) == 1 && w.Canon(a[0]) == want && w.Canon(rcv) == "recv.nextBlockCtx", "F-4", "deliverTxSync:AddFee:amount", "fee = GasToFee(this tx's GasUsed, governance gas price), added to the executing block's context", "the amount added to the fee sum is not GasUsed x governance gas price of this transaction: "+w.canonCall(af.Common(), 0), site(w, af))
-			// every success return passes AddFee
-			bad := ""
-			for _, ex := range exitsAvoiding(posOf(exs[0]), func(in ssa.Instruction) bool { return in == ssa.Instruction(af.(ssa.Instruction)) }, func(from, to *ssa.BasicBlock) bool {
-				// follow only the success edge of the ExecuteSync test
-				return true
-			}) {
-				if ret, ok := ex.(*ssa.Return); ok && w.nilTestAt(callValue(exs[0]), ret.Block()) == -1 {
-					bad = site(w, ret)
+			reExec := `\.txExecutor\.ExecuteSync\(.*\)$`
+			run := func(f atom) ([]pathEnd, bool) {
+				fe := w.newFactEval(nil, f)
+				saved := w.branchMarkers
+				w.branchMarkers = false
+				ps, complete := w.enumPaths(dt, fe.eval, ev, 6000)
+				w.branchMarkers = saved
+				return ps, complete && len(fe.used) > 0
+			}
+			count := func(p pathEnd, pre string) (n int, last string) {
+				for _, e := range p.Events {
+					if strings.HasPrefix(e, pre+"\x01") {
+						n++
+						last = strings.TrimPrefix(e, pre+"\x01")
+					}
+				}
+				return
+			}
+			failed, c1 := run(AR(reExec, "!=", "^nil$"))
+			onlyOnSuccess := c1
+			for _, p := range failed {
+				if n, _ := count(p, "ADD"); n > 0 {
+					onlyOnSuccess = false
 				}
 			}
-			r.Check(bad == "", "F-4", "deliverTxSync:AddFee:on-every-success", "every successful delivery adds its fee", "a successful delivery returns without adding its fee: "+bad, site(w, af))
+			okd, c2 := run(AR(reExec, "==", "^nil$"))
+			everySuccess, amount := c2, c2
+			nOK := 0
+			for _, p := range okd {
+				ne, arg := count(p, "EXEC")
+				if ne == 0 || p.Term == "panic" {
+					continue // the context could not be built
+				}
+				nOK++
+				if ne != 1 || arg != cs {
+					everySuccess = false
+				}
+				na, add := count(p, "ADD")
+				if na != 1 {
+					everySuccess = false
+					continue
+				}
+				if add != "recv.nextBlockCtx\x01"+want {
+					amount = false
+				}
+			}
+			if nOK == 0 {
+				everySuccess, amount = false, false
+			}
+			if addSite == "" {
+				addSite = fnSite(w, dt)
+			}
+			r.Check(onlyOnSuccess, "F-4", "deliverTxSync:AddFee:only-on-success", "the fee is added only where ExecuteSync of this context returned nil", "AddFee is reachable for a failed transaction (a fee charged to nobody would be credited to the proposer)", addSite)
+			r.Check(amount, "F-4", "deliverTxSync:AddFee:amount", "fee = GasToFee(this tx's GasUsed, governance gas price), added to the executing block's context", "the amount added to the fee sum is not GasUsed x governance gas price of this transaction", addSite)
+			r.Check(everySuccess, "F-4", "deliverTxSync:AddFee:on-every-success", "every successful delivery adds its fee exactly once", "a successful delivery returns without adding its fee (or adds it more than once)", addSite)
 		}
 	}
 	gf := needFn(r, "F-4", w, fref{pkgCT, "", "GasToFee"})
@@ -309,8 +356,7 @@ func f4(w *World, r *Report) {
 		ok := false
 		for _, b := range gf.Blocks {
 			if ret, isR := lastInstr(b).(*ssa.Return); isR {
-				c := w.Canon(ret.Results[0])
-				ok = c == "new(uint256.Int).Mul(uint256.NewInt(p0), p1)" || c == "new(uint256.Int).Mul(p1, uint256.NewInt(p0))"
+				ok = w.zValue(ret.Results[0]) == "zmul(p1|u(p0))"
 			}
 		}
 		r.Check(ok, "F-4", "GasToFee", "fee = gas x price in 256-bit arithmetic", "GasToFee is not gas x price", fnSite(w, gf))
